@@ -222,9 +222,9 @@ Definition mask_of_shape (sh : shape) : N :=
 (* L1 — src/regex_manager.rs: compile_regex, string level                                 *)
 (* ====================================================================================== *)
 
-(* SPECIAL_RE = ([\|\.\$\+\?\{\}\(\)\[\]]) *)
+(* SPECIAL_RE = ([\|\.\$\+\?\{\}\(\)\[\]\\])   (the backslash since /repo 3b0c504) *)
 Definition is_special (b : N) : bool :=
-  memN b [124; 46; 36; 43; 63; 123; 125; 40; 41; 91; 93].
+  memN b [124; 46; 36; 43; 63; 123; 125; 40; 41; 91; 93; 92].
 
 Definition SEP_TXT : str := bs "(?:[^\w\d\._%-])".
 Definition SEP_EOL_TXT : str := bs "(?:[^\w\d\._%-]|$)".
@@ -550,7 +550,7 @@ Definition nondegenerate_fields (sh : shape) (filter : option str) (hostname : o
 (* filter texts on which compile_regex's string translation is the canonical printing of the
    token list and that text means what the tokens mean *)
 Definition regex_nondegenerate (f : str) : bool :=
-  no_backslash f && negb (has_double_caret f) && no_nl f.
+  negb (has_double_caret f) && no_nl f.
 
 (* request well-formedness: searching from where get_url_after_anchor starts (after "://" and the
    credentials) the first occurrence of the hostname in the lower-cased URL is the host, at offset
@@ -687,7 +687,7 @@ Definition nondegenerate_text (line : str) : bool :=
   let '(_, lk, rp, pattern) := split_line line in
   let p := lower_str pattern in
   negb (nullb p)
-  && no_backslash p && no_nl p && negb (has_double_caret p)
+  && no_nl p && negb (has_double_caret p)
   && negb (head_is STAR p) && negb (last_is STAR p)
   && negb (head_is SLASH p && last_is SLASH p && Nat.ltb 1 (length p))
   && negb (memN DOLLAR p)
